@@ -1206,6 +1206,10 @@ class Interp:
     def iterate(self, it):
         if is_sym(it):
             raise NotEncodable("iterate symbolic")
+        hook = getattr(self, "set_order_hook", None)
+        if hook is not None and isinstance(it, (set, frozenset)) and len(it) > 1:
+            # iteration order of a hash set is not part of the program's meaning: the harness decides it
+            return iter(hook(list(it)))
         return iter(it)
 
     def ev(self, n, env):
